@@ -341,6 +341,52 @@ theorem wsdPlace_moved (c : Cls) (g : Seg) (segStart pos gap : BitVec 64) (sec :
   · rfl
   · exact SecBuf.Moved.refl _
 
+theorem wsdPlace_facts (c : Cls) (g : Seg) (segStart pos gap : BitVec 64) (sec : SecBuf)
+    (hidx : sec.index ≠ 0)
+    (h01 : pos.toNat ≤ (wsd_cursor_gap pos gap).toNat)
+    (h12 : (wsd_cursor_gap pos gap).toNat ≤ (wsdPlace c g segStart pos gap sec).2.toNat)
+    (hfit : fitsB c (wsd_cursor_gap pos gap) = true) :
+    (wsdPlace c g segStart pos gap sec).1.offset = pos + gap ∧
+    (pos + gap).toNat = pos.toNat + gap.toNat ∧
+    (wsdPlace c g segStart pos gap sec).2.toNat =
+      pos.toNat + gap.toNat + (if wsd_counts_file sec.stype then sec.size.toNat else 0) ∧
+    (wsdPlace c g segStart pos gap sec).1.addr =
+      (if sec.addrSet then sec.addr else truncA c (g.vaddr + (pos + gap) - segStart)) := by
+  have key : ∀ sa : SecBuf, sa.index = sec.index → sa.stype = sec.stype → sa.size = sec.size →
+      (pos + gap).toNat ≤ (if wsd_counts_file (setOffset c sa (pos + gap)).stype = true then
+          wsd_advance (pos + gap) (setOffset c sa (pos + gap)).size else pos + gap).toNat →
+      (setOffset c sa (pos + gap)).offset = pos + gap ∧
+      (pos + gap).toNat = pos.toNat + gap.toNat ∧
+      (if wsd_counts_file (setOffset c sa (pos + gap)).stype = true then
+          wsd_advance (pos + gap) (setOffset c sa (pos + gap)).size else pos + gap).toNat =
+        pos.toNat + gap.toNat + (if wsd_counts_file sec.stype then sec.size.toNat else 0) ∧
+      (setOffset c sa (pos + gap)).addr = sa.addr := by
+    intro sa hsai hsat hsas h12
+    simp only [wsd_cursor_gap] at h01 hfit
+    have hoff : (setOffset c sa (pos + gap)).offset = pos + gap :=
+      setOffset_offset c sa _ (by rw [hsai]; exact hidx) hfit
+    have hst2 : (setOffset c sa (pos + gap)).stype = sec.stype := by rw [(setOffset_moved c sa _).stype, hsat]
+    have hsz2 : (setOffset c sa (pos + gap)).size = sec.size := by rw [(setOffset_moved c sa _).size, hsas]
+    have hadd : (setOffset c sa (pos + gap)).addr = sa.addr := by unfold setOffset; split <;> rfl
+    rw [hst2, hsz2] at h12 ⊢
+    have hpg := bv_add_toNat_of_le _ _ h01
+    refine ⟨hoff, hpg, ?_, hadd⟩
+    by_cases hcf : wsd_counts_file sec.stype = true
+    · simp only [hcf, if_true, wsd_advance] at h12 ⊢
+      rw [bv_add_toNat_of_le _ _ h12, hpg]
+    · have hcf' : wsd_counts_file sec.stype = false := by simpa using hcf
+      simp only [hcf', Bool.false_eq_true, if_false, Nat.add_zero]; exact hpg
+  unfold wsdPlace at h12 ⊢
+  simp only [wsd_cursor_gap] at h12 ⊢
+  cases has : sec.addrSet with
+  | true =>
+    simp only [has, Bool.not_true, Bool.false_eq_true, ↓reduceIte] at h12 ⊢
+    exact key sec rfl rfl rfl h12
+  | false =>
+    simp only [has, Bool.not_false, Bool.false_eq_true, ↓reduceIte] at h12 ⊢
+    have := key { sec with addr := truncA c (wsd_new_addr g.vaddr (pos + gap) segStart), addrSet := true } rfl rfl rfl h12
+    simpa [wsd_new_addr] using this
+
 /-- no wrap-around (and ELF32 fit of the offset) in one step of `write_segment_data` -/
 def wsdStepNW (c : Cls) (g : Seg) (segStart : BitVec 64) (st : WsdSt) (idx : BitVec 16) : Bool :=
   match st.lay.secs[idx.toNat]?, st.lay.gen[idx.toNat]? with
@@ -430,6 +476,32 @@ theorem Packed.mark {lo hi : Nat} {secs : List SecBuf} {P Q : Nat → Prop}
       · exact absurd hb (hn b hk2)
     · exact absurd ha (hn a hk1)
 
+theorem wsd_gap_align_mod (pos al0 : BitVec 64)
+    (hle : pos.toNat ≤ (pos + wsd_gap_align (if wsd_align_zero al0 then 1 else al0)
+        (wsd_error pos (if wsd_align_zero al0 then 1 else al0))).toNat) :
+    (pos + wsd_gap_align (if wsd_align_zero al0 then 1 else al0)
+        (wsd_error pos (if wsd_align_zero al0 then 1 else al0))).toNat % (max al0.toNat 1) = 0 := by
+  have e0 : (BitVec.signExtend 64 0#32) = 0#64 := by decide
+  have hA : (if wsd_align_zero al0 then (1 : BitVec 64) else al0).toNat = max al0.toNat 1 := by
+    unfold wsd_align_zero; rw [e0]
+    by_cases h : al0 = 0#64
+    · simp [h]
+    · have : al0.toNat ≠ 0 := fun e => h (BitVec.eq_of_toNat_eq (by simpa using e))
+      simp only [beq_iff_eq, h, if_false]; omega
+  generalize (if wsd_align_zero al0 then (1 : BitVec 64) else al0) = A at *
+  rw [bv_add_toNat_of_le _ _ hle]
+  have hp := pos.isLt; have ha := A.isLt
+  have hapos : 0 < A.toNat := by omega
+  have hc := Nat.mod_lt pos.toNat hapos
+  rw [← hA]
+  simp only [wsd_gap_align, wsd_error, BitVec.toNat_umod, BitVec.toNat_sub, Nat.reducePow]
+  have e : (18446744073709551616 - pos.toNat % A.toNat + A.toNat) % 18446744073709551616 = A.toNat - pos.toNat % A.toNat := by omega
+  rw [e]
+  by_cases hz : pos.toNat % A.toNat = 0
+  · rw [hz, Nat.sub_zero, Nat.mod_self, Nat.add_zero]; exact hz
+  · rw [Nat.mod_eq_of_lt (show A.toNat - pos.toNat % A.toNat < A.toNat by omega)]
+    exact align_up_mod _ _ hapos
+
 /-- `section_generated[k]` -/
 def Layout.Gen (lay : Layout) (k : Nat) : Prop := lay.gen[k]? = some true
 
@@ -450,14 +522,20 @@ structure LayStep (lay lay' : Layout) : Prop where
       cursor: its range lies between the cursor before and the cursor after -/
   fresh : ∀ (k : Nat) (s' : SecBuf), ¬ lay.Gen k → lay'.Gen k → lay'.secs[k]? = some s' → s'.Occ →
     lay.pos.toNat ≤ s'.offset.toNat ∧ s'.endN ≤ lay'.pos.toNat
+  /-- members that are not generated yet are not touched -/
+  untouched : ∀ (k : Nat) (s : SecBuf), ¬ lay'.Gen k → lay.secs[k]? = some s → lay'.secs[k]? = some s
+  /-- a member without an explicit address is placed at a multiple of its alignment -/
+  aligned : ∀ (k : Nat) (s s' : SecBuf), ¬ lay.Gen k → lay'.Gen k → lay.secs[k]? = some s →
+    lay'.secs[k]? = some s' → s.addrSet = false → s.stype ≠ BitVec.ofNat 32 SHT_NULL → s.index ≠ 0 →
+    s'.offset.toNat % (max s.addrAlign.toNat 1) = 0
 
 theorem LayStep.refl (lay : Layout) : LayStep lay lay :=
   ⟨Nat.le_refl _, rfl, fun _ h => h, fun _ _ _ h => h, fun _ s h => ⟨s, h, SecBuf.Moved.refl s⟩,
-   fun _ _ h1 h2 => absurd h2 h1⟩
+   fun _ _ h1 h2 => absurd h2 h1, fun _ _ _ h => h, fun _ _ _ h1 h2 => absurd h2 h1⟩
 
 theorem LayStep.trans {a b c : Layout} (h1 : LayStep a b) (h2 : LayStep b c) : LayStep a c := by
   refine ⟨Nat.le_trans h1.mono h2.mono, by rw [h2.len, h1.len], fun k h => h2.genMono k (h1.genMono k h),
-    fun k s hg hs => h2.frame k s (h1.genMono k hg) (h1.frame k s hg hs), ?_, ?_⟩
+    fun k s hg hs => h2.frame k s (h1.genMono k hg) (h1.frame k s hg hs), ?_, ?_, ?_, ?_⟩
   · intro k s hs
     obtain ⟨s1, hs1, hm1⟩ := h1.moved k s hs
     obtain ⟨s2, hs2, hm2⟩ := h2.moved k s1 hs1
@@ -481,6 +559,15 @@ theorem LayStep.trans {a b c : Layout} (h1 : LayStep a b) (h2 : LayStep b c) : L
     · have := h2.fresh k s' hgb hg hs' ho
       have := h1.mono
       omega
+  · intro k s hng hs
+    exact h2.untouched k s hng (h1.untouched k s (fun hb => hng (h2.genMono k hb)) hs)
+  · intro k s s' hng hg hs hs' ha hnn hi
+    by_cases hgb : b.Gen k
+    · obtain ⟨s1, hs1, -⟩ := h1.moved k s hs
+      have := h2.frame k s1 hgb hs1
+      rw [hs'] at this; simp only [Option.some.injEq] at this; subst this
+      exact h1.aligned k s s' hng hgb hs hs1 ha hnn hi
+    · exact h2.aligned k s s' hgb hg (h1.untouched k s hgb hs) hs' ha hnn hi
 
 theorem getElem?_set_true_iff (l : List Bool) (i k : Nat) (hi : i < l.length) :
     (l.set i true)[k]? = some true ↔ (l[k]? = some true ∨ k = i) := by
@@ -529,12 +616,18 @@ theorem wsdStep_inv (c : Cls) (g : Seg) (segStart : BitVec 64) (st st' : WsdSt) 
       · exact Or.inl h'
       · right; intro s hs; subst h'; rw [hsec] at hs; simp only [Option.some.injEq] at hs; subst hs; exact hnocc
     · refine ⟨Nat.le_refl _, rfl, fun k hk => (hG k).2 (Or.inl hk), fun _ _ _ hs => hs,
-        fun _ s hs => ⟨s, hs, SecBuf.Moved.refl s⟩, ?_⟩
-      intro k s' hng hg hs' ho
-      rcases (hG k).1 hg with h' | h'
-      · exact absurd h' hng
-      · subst h'; simp only at hs'; rw [hsec] at hs'; simp only [Option.some.injEq] at hs'; subst hs'
-        exact absurd ho hnocc
+        fun _ s hs => ⟨s, hs, SecBuf.Moved.refl s⟩, ?_, fun _ _ _ hs => hs, ?_⟩
+      · intro k s' hng hg hs' ho
+        rcases (hG k).1 hg with h' | h'
+        · exact absurd h' hng
+        · subst h'; simp only at hs'; rw [hsec] at hs'; simp only [Option.some.injEq] at hs'; subst hs'
+          exact absurd ho hnocc
+      · intro k s s' hng hg hs hs' _ hnn _
+        rcases (hG k).1 hg with h' | h'
+        · exact absurd h' hng
+        · subst h'; rw [hsec] at hs; simp only [Option.some.injEq] at hs; subst hs
+          simp only [wsd_is_null, beq_iff_eq] at hnull
+          exact absurd hnull.symm hnn
   · have hnull' : wsd_is_null sec.stype = false := by simpa using hnull
     simp only [hnull', Bool.false_eq_true, if_false] at h
     cases hgap : wsdGap g segStart st.lay.pos st.file sec generated with
@@ -592,7 +685,7 @@ theorem wsdStep_inv (c : Cls) (g : Seg) (segStart : BitVec 64) (st st' : WsdSt) 
         · intro k t hk hp ho; exact this.inR k t hk ((hG k).1 hp) ho
         · intro k1 k2 a b hne hk1 hk2 hp1 hp2 ha hb
           exact this.disj k1 k2 a b hne hk1 hk2 ((hG k1).1 hp1) ((hG k2).1 hp2) ha hb
-      · refine ⟨hmono, by simp, fun k hk => (hG k).2 (Or.inl hk), ?_, ?_, ?_⟩
+      · refine ⟨hmono, by simp, fun k hk => (hG k).2 (Or.inl hk), ?_, ?_, ?_, ?_, ?_⟩
         · intro k s hg hs
           have hne : idx.toNat ≠ k := by
             intro e; subst e
@@ -615,6 +708,30 @@ theorem wsdStep_inv (c : Cls) (g : Seg) (segStart : BitVec 64) (st st' : WsdSt) 
             simp only [List.getElem?_set, if_true, hl, Option.some.injEq] at hs'
             subst hs'
             exact hrange ho
+        · intro k s hng hs
+          have hne : idx.toNat ≠ k := by
+            intro e; subst e
+            exact hng ((hG _).2 (Or.inr rfl))
+          simp only [List.getElem?_set, hne, if_false]; exact hs
+        · intro k s s' hng hg hs hs' ha hnn hi
+          rcases (hG k).1 hg with h' | h'
+          · exact absurd h' hng
+          · subst h'
+            rw [hsec] at hs; simp only [Option.some.injEq] at hs; subst hs
+            have hl : idx.toNat < st.lay.secs.length := by rw [← hinv.len]; exact hilen
+            simp only [List.getElem?_set, if_true, hl, Option.some.injEq] at hs'
+            subst hs'
+            obtain ⟨foff, -, -, -⟩ := wsdPlace_facts c g segStart st.lay.pos gap sec hi h01 h12 hfit
+            rw [foff]
+            unfold wsdGap at hgap
+            have hb1 : wsd_addr_branch false sec.addrSet sec.stype sec.size = false := by
+              rw [ha]; simp [wsd_addr_branch]
+            have hb2 : wsd_align_branch false sec.addrSet = true := by rw [ha]; rfl
+            rw [hb1, hb2] at hgap
+            simp only [Bool.false_eq_true, if_false, if_true, Option.some.injEq] at hgap
+            subst hgap
+            apply wsd_gap_align_mod
+            simpa only [wsd_cursor_gap] using h01
 
 /-- `write_segment_data` as a whole: the invariant is kept; the cursor never decreases, generated
     members are not re-placed, `gen` only gains `true`s, members generated in this call lie between
@@ -765,7 +882,7 @@ theorem layoutSegment_inv (c : Cls) (hdrPhoff : BitVec 64) (phentsize phnum : Bi
       have hstep1 : LayStep lay r.1 := by
         rw [hl]
         exact ⟨hnw.1.1, rfl, fun _ h => h, fun _ _ _ h => h, fun _ s h => ⟨s, h, SecBuf.Moved.refl s⟩,
-          fun _ _ h1 h2 => absurd h2 h1⟩
+          fun _ _ h1 h2 => absurd h2 h1, fun _ _ _ h => h, fun _ _ _ h1 h2 => absurd h2 h1⟩
       cases hw : wsdLoop c g r.2.1 g.secs { lay := r.1, mem := r.2.2.1, file := r.2.2.2 } with
       | error e => rw [hw] at h; simp at h
       | ok w =>
@@ -1193,52 +1310,6 @@ theorem layout_packed (o : Obj) (h : Bytes) (res : LayoutRes) (hl : layoutOf o h
   · rw [hsh]; exact (lst_cursor_facts res.pos3 (by rw [← hsh]; exact hnw4)).1
 
 /-! ### writer domain: what one placement does, exactly -/
-
-theorem wsdPlace_facts (c : Cls) (g : Seg) (segStart pos gap : BitVec 64) (sec : SecBuf)
-    (hidx : sec.index ≠ 0)
-    (h01 : pos.toNat ≤ (wsd_cursor_gap pos gap).toNat)
-    (h12 : (wsd_cursor_gap pos gap).toNat ≤ (wsdPlace c g segStart pos gap sec).2.toNat)
-    (hfit : fitsB c (wsd_cursor_gap pos gap) = true) :
-    (wsdPlace c g segStart pos gap sec).1.offset = pos + gap ∧
-    (pos + gap).toNat = pos.toNat + gap.toNat ∧
-    (wsdPlace c g segStart pos gap sec).2.toNat =
-      pos.toNat + gap.toNat + (if wsd_counts_file sec.stype then sec.size.toNat else 0) ∧
-    (wsdPlace c g segStart pos gap sec).1.addr =
-      (if sec.addrSet then sec.addr else truncA c (g.vaddr + (pos + gap) - segStart)) := by
-  have key : ∀ sa : SecBuf, sa.index = sec.index → sa.stype = sec.stype → sa.size = sec.size →
-      (pos + gap).toNat ≤ (if wsd_counts_file (setOffset c sa (pos + gap)).stype = true then
-          wsd_advance (pos + gap) (setOffset c sa (pos + gap)).size else pos + gap).toNat →
-      (setOffset c sa (pos + gap)).offset = pos + gap ∧
-      (pos + gap).toNat = pos.toNat + gap.toNat ∧
-      (if wsd_counts_file (setOffset c sa (pos + gap)).stype = true then
-          wsd_advance (pos + gap) (setOffset c sa (pos + gap)).size else pos + gap).toNat =
-        pos.toNat + gap.toNat + (if wsd_counts_file sec.stype then sec.size.toNat else 0) ∧
-      (setOffset c sa (pos + gap)).addr = sa.addr := by
-    intro sa hsai hsat hsas h12
-    simp only [wsd_cursor_gap] at h01 hfit
-    have hoff : (setOffset c sa (pos + gap)).offset = pos + gap :=
-      setOffset_offset c sa _ (by rw [hsai]; exact hidx) hfit
-    have hst2 : (setOffset c sa (pos + gap)).stype = sec.stype := by rw [(setOffset_moved c sa _).stype, hsat]
-    have hsz2 : (setOffset c sa (pos + gap)).size = sec.size := by rw [(setOffset_moved c sa _).size, hsas]
-    have hadd : (setOffset c sa (pos + gap)).addr = sa.addr := by unfold setOffset; split <;> rfl
-    rw [hst2, hsz2] at h12 ⊢
-    have hpg := bv_add_toNat_of_le _ _ h01
-    refine ⟨hoff, hpg, ?_, hadd⟩
-    by_cases hcf : wsd_counts_file sec.stype = true
-    · simp only [hcf, if_true, wsd_advance] at h12 ⊢
-      rw [bv_add_toNat_of_le _ _ h12, hpg]
-    · have hcf' : wsd_counts_file sec.stype = false := by simpa using hcf
-      simp only [hcf', Bool.false_eq_true, if_false, Nat.add_zero]; exact hpg
-  unfold wsdPlace at h12 ⊢
-  simp only [wsd_cursor_gap] at h12 ⊢
-  cases has : sec.addrSet with
-  | true =>
-    simp only [has, Bool.not_true, Bool.false_eq_true, ↓reduceIte] at h12 ⊢
-    exact key sec rfl rfl rfl h12
-  | false =>
-    simp only [has, Bool.not_false, Bool.false_eq_true, ↓reduceIte] at h12 ⊢
-    have := key { sec with addr := truncA c (wsd_new_addr g.vaddr (pos + gap) segStart), addrSet := true } rfl rfl rfl h12
-    simpa [wsd_new_addr] using this
 
 /-- a generic "every step satisfies `P`" predicate along `wsdLoop` -/
 def wsdLoopAll (P : WsdSt → BitVec 16 → Bool) (c : Cls) (g : Seg) (segStart : BitVec 64) :
@@ -2228,5 +2299,48 @@ theorem placed_all (o : Obj) (h : Bytes) (res : LayoutRes) (hl : layoutOf o h = 
     obtain ⟨f1, f2, f3, -, f5, -⟩ := e3 t ht
     rw [hsecs] at hidx
     exact f5.genMono _ ((layoutSegment_marks _ _ _ _ _ _ _ _ _ f3 f2 f1).1 idx hidx)
+
+/-- every section without an explicit address (index ≠ 0, not SHT_NULL-typed when inside a segment)
+    ends up at a multiple of its alignment -/
+theorem layout_aligned_res (o : Obj) (h : Bytes) (res : LayoutRes) (hl : layoutOf o h = .ok (some res))
+    (hnw : layoutNW o h = true) (hn : o.secs.length < 65536)
+    (h0 : ∀ (i : Nat) (s : SecBuf), o.secs[i]? = some s → s.Occ → s.index ≠ 0)
+    (k : Nat) (s0 s' : SecBuf) (h0k : o.secs[k]? = some s0) (hk : res.secs[k]? = some s')
+    (ha : s0.addrSet = false) (hnn : s0.stype ≠ BitVec.ofNat 32 SHT_NULL) (hi : s0.index ≠ 0) :
+    s'.offset.toNat % (max s0.addrAlign.toNat 1) = 0 := by
+  obtain ⟨-, hstep2, -, -⟩ := layout_packed o h res hl hnw hn h0
+  have hall := placed_all o h res hl hnw hn h0 k
+  have hnw' := hnw
+  unfold layoutNW at hnw'
+  rw [hl] at hnw'
+  simp only [Bool.and_eq_true, decide_eq_true_eq] at hnw'
+  obtain ⟨⟨-, hnw3⟩, -⟩ := hnw'
+  obtain ⟨-, -, -, -, -, -, hloose, -⟩ := layoutOf_parts o h res hl
+  rw [layoutLoose_eq_spec] at hloose
+  simp only [List.reverse_nil, List.nil_append, Prod.mk.injEq] at hloose
+  obtain ⟨hsecs, -⟩ := hloose
+  obtain ⟨-, -, fun_, fpl, -⟩ := looseSpec_facts o.cls res.segs res.lay2.secs 0 res.lay2.pos hnw3
+  simp only [Nat.zero_add] at fun_ fpl
+  simp only [← hsecs] at fun_ fpl
+  have h0k' : (lay0Of o res.pos0).secs[k]? = some s0 := h0k
+  obtain ⟨s2, hs2, hm2⟩ := hstep2.moved k s0 h0k'
+  cases hw : withoutSegment res.segs k with
+  | true =>
+    obtain ⟨t, ht, -, -, -, hr⟩ := fpl k s2 hs2 hw
+    rw [hk] at ht; simp only [Option.some.injEq] at ht; subst ht
+    have := (hr (by rw [hm2.index]; exact hi)).2.2.1
+    rw [hm2.addrAlign] at this; exact this
+  | false =>
+    have hg : res.lay2.Gen k := by
+      rcases hall with hg | hg
+      · exact hg
+      · rw [hw] at hg; exact nomatch hg
+    have hng : ¬ (lay0Of o res.pos0).Gen k := by
+      intro hg0
+      simp only [Layout.Gen, lay0Of, List.getElem?_replicate] at hg0
+      split at hg0 <;> simp at hg0
+    have := fun_ k s2 hs2 hw
+    rw [hk] at this; simp only [Option.some.injEq] at this; subst this
+    exact hstep2.aligned k s0 s' hng hg h0k' hs2 ha hnn hi
 
 end ElfioVerif
